@@ -2,7 +2,7 @@
 
 All sequences up to a depth over {solve (dual / primal / trace / logdet1 / MOSEK path), edits (replace the initial
 condition, add a metric, add an LMI, add / remove a contradicting constraint, decompose a new point, evaluate a held LMI
-and then add it), evaluate every held object, build new derived objects, solver answers 'no value' / 'error'
+and then add it, replace the first metric, apply a step with a side condition), evaluate every held object, build new derived objects, solver answers 'no value' / 'error'
 (deviations, at most 2)} on four base models (and, with a reduced alphabet plus 'evaluate the adjoint at a new point', on
 a linear-operator model and on a model whose class records a stationary point by itself).  After the last operation of every sequence (every prefix is itself
 enumerated) the long-lived problem is compared with a FRESHLY BUILT equivalent model (same edits, new PEP(), one solve
@@ -42,7 +42,7 @@ SOLVES = {
 }
 FAULTS = ["answer_novalue", "answer_error"]
 EDITS = ["replace_init", "add_metric", "add_lmi", "add_contradiction", "remove_contradiction", "new_block", "held_lmi", "more_samples",
-         "hand_partition_constraint", "adjoint_sample"]
+         "hand_partition_constraint", "adjoint_sample", "replace_metric", "side_condition_step"]
 OTHER = ["eval_held", "new_derived"]
 OPS = list(SOLVES) + FAULTS + EDITS + OTHER
 
@@ -115,6 +115,24 @@ def apply_edit(ctx, op, solved_flag):
             tgt.oracle(z)
             ctx.points["more_z"] = z
             pep.add_constraint((z - ctx.points["x0"]) ** 2 <= 0.25)
+    elif op == "replace_metric":
+        # the number of metrics does not change: the first one is REPLACED by another expression
+        if st.get("n_repl", 0) >= 1 or not pep.list_of_performance_metrics:
+            return False
+        st["n_repl"] = 1
+        m = 0.25 * ctx.exprs["dn"] + 0.5 * ctx.exprs["d0"]
+        ctx.exprs["metric_replacing"] = m
+        pep.list_of_performance_metrics[0] = m
+    elif op == "side_condition_step":
+        # a primitive step whose side condition is stored on the function (which may have had no constraint of its own so far)
+        if st.get("n_side", 0) >= 1:
+            return False
+        st["n_side"] = 1
+        from PEPit.primitive_steps import inexact_gradient_step
+        tgt = ctx.funcs.get("F", ctx.funcs["f"])
+        xq, dq, fq = inexact_gradient_step(ctx.points["x0"], tgt, 0.5, 0.3, notion="absolute")
+        ctx.points["side_x"], ctx.points["side_d"] = xq, dq
+        pep.set_performance_metric(dq ** 2 + 0.1 * ctx.exprs["dn"])
     elif op == "adjoint_sample":
         # a new evaluation of the ADJOINT only: the operator's own list of samples does not change
         f = ctx.funcs["f"]
@@ -400,7 +418,7 @@ def _ops_for(mname):
     if mname in ("linop", "qgnone"):
         # the two extra models exist for their own mechanism: a reduced alphabet keeps the exploration affordable
         keep = {"solve", "solve_primal", "solve_trace", "solve_mosek", "answer_novalue", "replace_init", "add_metric", "more_samples",
-                "adjoint_sample", "eval_held", "new_derived"}
+                "adjoint_sample", "eval_held", "new_derived", "replace_metric"}
         ops = [o for o in ops if o in keep]
     return ops
 
